@@ -229,7 +229,12 @@ def domain(thorough, s, s2):
     ttls = (0, 1, 3, INF) if not thorough else (0, 1, 3, 0xFFFF, 0x10000, 0xFFFFFE, INF)
     insts = (1, 2) if not thorough else (1, 2, 0xFFFF)
     majors = (1, 2) if not thorough else (1, 2, 0xFF)
-    return list(itertools.product((s, s2), insts, majors, (5, 6, 7), counters, ttls, (0, 1, 2), (0, 1)))
+    dom = list(itertools.product((s, s2), insts, majors, (5, 6, 7), counters, ttls, (0, 1, 2), (0, 1)))
+    if not thorough:
+        # requests that carry the wildcard values themselves (a wildcard only counts on the configured side)
+        dom += [(s, i, m, eg, 0, ttl, 1, 0) for i, m in ((0xFFFF, 1), (1, 0xFF), (0xFFFF, 0xFF), (0xFFFF, 2), (2, 0xFF))
+                for eg in (5, 6, 7) for ttl in (0, 3, INF)]
+    return dom
 
 
 def part(args):
